@@ -3,8 +3,8 @@
    LabelJson.v (label sets), SeriesIndex.v (request histories), Dates.v (days and time zones). *)
 From Coq Require Import List ZArith Bool String Permutation.
 From Qryn Require Import model.GoQuote model.LabelJson model.Fingerprint model.Labels
-  model.SeriesIndex model.ConfirmRule model.FlushRule model.Dates model.CacheKey model.GoJson model.DdTags model.ProtoLabels model.SeriesDoc
-  proofs.FingerprintProofs proofs.FingerprintInjProofs proofs.LabelsProofs proofs.JsonQuoteProofs proofs.LabelDocReaderProofs proofs.ProtoLabelsProofs proofs.GoJsonProofs proofs.DdTagsProofs proofs.ProtoGuardProofs proofs.SeriesIndexProofs proofs.ConfirmRuleProofs proofs.FlushRuleProofs proofs.DiscoverProofs proofs.DiscoverWindowProofs proofs.DatesProofs proofs.CacheKeyProofs.
+  model.SeriesIndex model.ConfirmRule model.FlushRule model.Dates model.CacheKey model.GoJson model.DdTags model.ProtoLabels model.SeriesDoc model.TwoReaders
+  proofs.FingerprintProofs proofs.FingerprintInjProofs proofs.LabelsProofs proofs.JsonQuoteProofs proofs.LabelDocReaderProofs proofs.TwoReadersProofs proofs.ProtoLabelsProofs proofs.GoJsonProofs proofs.DdTagsProofs proofs.ProtoGuardProofs proofs.SeriesIndexProofs proofs.ConfirmRuleProofs proofs.FlushRuleProofs proofs.DiscoverProofs proofs.DiscoverWindowProofs proofs.DatesProofs proofs.CacheKeyProofs.
 From Qryn Require model.Scans model.LogqlPlan model.SqlEval.
 Import ListNotations.
 Open Scope Z_scope.
@@ -287,6 +287,25 @@ Print Assumptions label_document_before_fix_exact.
 Theorem acked_sample_is_indexed : forall h, all_indexed_typed (run init h) = true.
 Proof. exact acked_indexed_typed_all. Qed.
 Print Assumptions acked_sample_is_indexed.
+
+(* The two readers of a stored label document whose members are [m] in document order (model/TwoReaders.v): the SQL matchers and
+   the labels map of a log query read the FIRST member of a name (SqlEval.label_of), the Go map /series decodes the text into
+   keeps the LAST (go_read). They agree on every name exactly outside the class [ambiguous]; documents with pairwise distinct
+   names - every document of the sanitizing protocols and of OTLP - are outside it. *)
+Theorem label_document_readers_agree_partial :
+  (forall m, ambiguous m = false -> forall k, SqlEval.label_of m k = go_read m k) /\
+  (forall m, NoDup (map fst m) -> ambiguous m = false) /\
+  (forall m, ambiguous m = true -> exists k, In k (map fst m) /\ SqlEval.label_of m k <> go_read m k).
+Proof. exact (conj readings_agree_outside_class (conj distinct_names_unambiguous readings_differ_inside_class)). Qed.
+Print Assumptions label_document_readers_agree_partial.
+
+(* ... and a Datadog logs request reaches the class: ddtags "service:x,env:prod" beside the field service = "y" is stored as
+   {"service":"x","env":"prod","service":"y","type":"datadog"}: {service="x"} selects the stream, /series shows service="y"
+   (open finding repeated-label-name-two-readings; the check replays it through the real decoder and the real storedLabels). *)
+Theorem label_document_readers_agree_refuted_for_repeated_names :
+  exists m, ambiguous m = true /\ SqlEval.label_of m "service" = "x"%string /\ go_read m "service" = "y"%string.
+Proof. exact (ex_intro _ w_dd_repeated (conj (proj1 w_rep_two_readings) (conj (proj1 (proj2 w_rep_two_readings)) (proj1 (proj2 (proj2 w_rep_two_readings)))))). Qed.
+Print Assumptions label_document_readers_agree_refuted_for_repeated_names.
 
 (* WHICH chunks of a request doParse may enter into the announcement cache (model/ConfirmRule.v: the request in flight remembers
    the chunks it sent with the outcomes of their inserts, the promise list is spelled out as in the code - FIVE promises per
